@@ -406,6 +406,7 @@ CHECKS = {
             {"name": "all-k", "test": "TestAllK", "quick": None, "thorough": None, "shards": 16, "enum": True},
             {"name": "callbacks-rt", "test": "TestCallbacks", "quick": 60, "thorough": 600, "shards": 8},
             {"name": "rpc-forced-order", "test": "TestForced", "quick": 24, "thorough": 300, "shards": 8},
+            {"name": "callbacks-reader-rt", "test": "TestCBReader", "quick": 16, "thorough": 120, "shards": 4},
         ],
     },
     "C06": {
